@@ -55,7 +55,11 @@ CFG = {
             "cells) in 0-3 axes incl. negative blocks, 3-40 cubes per unit (integral and fractional), cutoff 0 or negative, "
             "AddField/AddFieldParallel, March/MarchParallel; arbitrary sign patterns on 3..7^3 lattices with values exactly on "
             "the cutoff; all 256 corner patterns of one cell inside a block and across a block face in x, y, z; a few large "
-            "shapes (harness-side oracles only). Distinct by input; non-trivial = at least one output triangle",
+            "shapes (harness-side oracles only); systematic block streams: per axis two lattice-aligned beams whose below-cutoff "
+            "samples span exactly 100m-1..100m+100 and 100m..100m+99 (through a whole block, incl. negative blocks), a tilted "
+            "capsule 101-260 cells long entering before a block boundary, one capsule diagonal in a coordinate plane (>100 cells "
+            "on both axes), and 12 short boxes whose lowest/highest below-cutoff sample lies exactly on index 0 / 99 of a block "
+            "for every axis and sign; 1/10 of the random shapes is such a long thin shape. Distinct by input; non-trivial = at least one output triangle",
     "trusted": ["sign grid = implementation's own field functions re-evaluated by the harness at the positions and in the "
                 "accumulation order of addFloat1Range (canvas storage is unexported)",
                 "weld buckets (modeling.Vector3ToInt(position, 3)) of output vertices and of the crossing points are computed "
